@@ -45,9 +45,14 @@ type World struct {
 	cleanPt  map[string]uint64 // chain|src/dst -> highest clean point seen
 	sendSeqs map[string]uint64 // chain|src/dst -> number of successful sends observed
 	txCount  int
+	Scenario string // name of the scripted scenario being executed, if any
 }
 
 func (w *World) hit(prop, sig string) {
+	if w.Scenario != "" {
+		// oracle hits inside a scripted scenario carry its name (known findings are keyed on it)
+		sig += " scenario=" + w.Scenario
+	}
 	w.Oracle = append(w.Oracle, fmt.Sprintf("%s %s @op%d", prop, sig, len(w.Ops)))
 }
 
